@@ -10,9 +10,9 @@ if HERE not in sys.path:
     sys.path.insert(0, HERE)
 
 
-def outputs(blt, opts, lowprec):
+def outputs(blt, opts, lowprec, profile=None):
     import drive
-    T = drive.run_count(blt, opts, lowprec=tuple(lowprec) if lowprec else None, keepE=True)
+    T = drive.run_count(blt, opts, lowprec=tuple(lowprec) if lowprec else None, keepE=True, profile=profile)
     E = T.get('_E')
     res = dict(outcome=T['outcome'], exc=T['exc'])
     if E is not None and T['outcome'] in ('ok', 'exc'):
